@@ -103,6 +103,19 @@ func newConcTV(cs *concStore, decs *atomic.Int64, decEvery int64) *kvstore.Typed
 		})
 }
 
+// okVal: what a Get that returned no error is recorded as.  The observations use 0 for "ErrKeyNotFound" and no workload
+// ever writes 0, so a Get that answers (zero value, nil) — e.g. for an absent key — must not be mistaken for a correct
+// "not found": it is recorded as a value nobody wrote.
+const neverWritten = uint64(1) << 50
+
+func okVal(v uint64) uint64 {
+	if v == 0 {
+		return neverWritten
+	}
+
+	return v
+}
+
 func waitAll(wg *sync.WaitGroup, d time.Duration) bool {
 	ch := make(chan struct{})
 	go func() { wg.Wait(); close(ch) }()
@@ -208,6 +221,7 @@ func runCounter(r *hx.Run, rng *hx.Rng) string {
 					if err != nil && !errors.Is(err, kvstore.ErrKeyNotFound) {
 						continue // an injected read/decode fault hit this reader
 					}
+					v = okVal(v)
 					if err != nil {
 						v = 0
 					}
@@ -385,6 +399,7 @@ func runMixed(r *hx.Run, rng *hx.Rng) string {
 					if err != nil && !errors.Is(err, kvstore.ErrKeyNotFound) {
 						continue
 					}
+					v = okVal(v)
 					if err != nil {
 						v = 0
 					}
@@ -979,7 +994,7 @@ func runRGate(r *hx.Run, rng *hx.Rng) string {
 			v, err := tv.Get()
 			switch {
 			case err == nil:
-				reader.s = v
+				reader.s = okVal(v)
 			case errors.Is(err, kvstore.ErrKeyNotFound):
 				reader.s = 0
 			default:
@@ -1126,6 +1141,9 @@ func runConcKind(r *hx.Run, kind string, rng *hx.Rng) string {
 	if kind == "upgrade" {
 		return runUpgrade(r, rng)
 	}
+	if kind == "lin" {
+		return runLin(r, rng)
+	}
 	if kind == "mixed" {
 		return runMixed(r, rng)
 	}
@@ -1141,8 +1159,9 @@ func runConcKind(r *hx.Run, kind string, rng *hx.Rng) string {
 
 func concPart(r *hx.Run) {
 	nc, nm, nwide, ngate, nrgate, nupg := 200*r.Scale, 120*r.Scale, 8*r.Scale, 300*r.Scale, 300*r.Scale, 400*r.Scale
+	nlin := 1500 * r.Scale
 	slow := map[string]int{}
-	for i := 0; i < nc+nm+nwide+ngate+nrgate+nupg; i++ {
+	for i := 0; i < nc+nm+nwide+ngate+nrgate+nupg+nlin; i++ {
 		rng, sub := r.Rng.Fork()
 		r.Case(sub)
 		kind := "counter"
@@ -1161,6 +1180,9 @@ func concPart(r *hx.Run) {
 		if i >= nc+nm+nwide+ngate+nrgate {
 			kind = "upgrade"
 		}
+		if i >= nc+nm+nwide+ngate+nrgate+nupg {
+			kind = "lin"
+		}
 		if slow[kind] >= 3 {
 			// three rounds of this kind ran into a watchdog: the finding is recorded, do not spend the time limit on more
 			r.Count("conc:skipped-after-watchdogs." + kind)
@@ -1174,7 +1196,7 @@ func concPart(r *hx.Run) {
 		}
 		r.Line(line, "accept")
 		r.Count("op:conc." + kind)
-		if i < 2 || i == nc || i == nc+nm+nwide+ngate || i == nc+nm+nwide+ngate+nrgate {
+		if i < 2 || i == nc || i == nc+nm+nwide+ngate || i == nc+nm+nwide+ngate+nrgate || i == nc+nm+nwide+ngate+nrgate+nupg {
 			if len(line) > 300 {
 				line = line[:300] + "…"
 			}
